@@ -45,11 +45,8 @@ man = {
                            'path conditions and obligations discharged by z3'},
         {'name': 'pysym', 'path': 'vf/pysym.py',
          'serves_properties': sorted(k for k, c in registry.CHECKS.items() if 'pysym' in c['engine']),
-         'kind_free_text': 'Python AST -> z3 (Int/String) translation of small pure functions of src/cffi'},
-        {'name': 'crosshair', 'path': 'vf/xhair.py',
-         'serves_properties': sorted(k for k, c in registry.CHECKS.items() if 'crosshair' in c['engine']),
-         'kind_free_text': 'CrossHair 0.0.110 (symbolic execution of the real Python functions with z3), '
-                           'every counterexample replayed in plain Python'},
+         'kind_free_text': 'proxy symbolic execution of the real Python functions of src/cffi: symbolic ints (vf/pysym.py), symbolic '
+                           'strings and NFA-simulated regexes (vf/symstr.py); every branch decided by z3, paths explored by re-execution'},
     ],
     'checks': checks,
     'not_applicable': na,
